@@ -136,6 +136,7 @@ fn main() {
             let mut n = 0u64;
             let mut known_hits = 0u64;
             let skip_classes: Vec<String> = args.iter().skip(5).cloned().collect();
+            let trace_inputs = std::env::var("VERIF_FINDER_TRACE").is_ok();
             while budget.left() {
                 let input = match gen(pid, &mut r) {
                     Some(v) => v,
@@ -145,6 +146,9 @@ fn main() {
                     }
                 };
                 n += 1;
+                if trace_inputs {
+                    eprintln!("{}", input);
+                }
                 if let Some(detail) = run_one(pid, &input) {
                     let cls = detail.get("class").and_then(|c| c.as_str()).unwrap_or("").to_string();
                     if !cls.is_empty() && skip_classes.contains(&cls) {
